@@ -61,6 +61,7 @@ type Task struct {
 	ready   func() bool
 	what    string
 	seen    uint64
+	force   bool
 	killed  bool
 	prio    int64
 	vc      []uint32
@@ -127,6 +128,8 @@ type World struct {
 	main     *Task
 	nextID   int
 	epoch    uint64
+	chanEpoch uint64
+	fullPoll  uint64 // epoch at which all pollers were last force-retried
 	now      int64
 	timers   timerHeap
 	timerSeq uint64
@@ -154,6 +157,7 @@ type World struct {
 	nodeDown map[int]bool
 	atExit   []func()
 	allTasks int
+	locals   map[string]any
 }
 
 // W is the current world (nil outside a run).
@@ -431,7 +435,7 @@ func (w *World) isCand(t *Task) bool {
 	case stBlocked:
 		return t.ready()
 	case stPolling:
-		return w.epoch > t.seen
+		return w.chanEpoch > t.seen || t.force
 	}
 	return false
 }
@@ -454,6 +458,22 @@ func (w *World) pick() *Task {
 		}
 		cands := w.candidates(candBuf[:0])
 		haveTimer := len(w.timers) > 0
+		if len(cands) == 0 && w.fullPoll != w.epoch {
+			// before concluding that nothing can run, every parked poller gets
+			// one more try after the last real step: a wake-up source the
+			// simulator does not know about can then never be missed
+			w.fullPoll = w.epoch
+			any := false
+			for _, t := range w.tasks {
+				if t.state == stPolling {
+					t.force = true
+					any = true
+				}
+			}
+			if any {
+				continue
+			}
+		}
 		if len(cands) == 0 {
 			var q *Task
 			for _, t := range w.tasks {
@@ -564,9 +584,27 @@ func Poll(what string) {
 		runtime.Goexit()
 	}
 	t.state = stPolling
-	t.seen = w.epoch
+	t.seen = w.chanEpoch
+	t.force = false
 	t.what = what
 	w.resched()
+}
+
+// ChanEvent tells the scheduler that something happened that can complete a
+// parked channel operation (send, close, context cancellation, timer).
+func ChanEvent() {
+	if W != nil {
+		W.chanEpoch++
+	}
+}
+
+// Close closes a channel (the rewriter routes the close builtin through it).
+func Close[T any](ch chan<- T) {
+	if W != nil && !W.cur.killed {
+		Yield(OpChan)
+		W.chanEpoch++
+	}
+	close(ch)
 }
 
 // ParkForever blocks the current task for the rest of the run (select{}).
@@ -627,6 +665,7 @@ func KillNode(node int) int {
 		n++
 	}
 	w.epoch++
+	w.chanEpoch++
 	return n
 }
 
@@ -773,6 +812,7 @@ func (w *World) fireTimer() {
 		w.now = t.at
 	}
 	w.epoch++
+	w.chanEpoch++
 	t.fn()
 }
 
